@@ -7,6 +7,7 @@ from ..model import AnalysisError
 from ..symval import Evaluator, Tup, Obj, Mat, NoneV, NONE, Str
 from ..symcheck import Oracle, check_equal, compare_values, show, leaves
 from ..rules import where
+from . import common
 from ..mutate import replace_in_function, substitute
 from . import c11
 
@@ -49,6 +50,7 @@ def symbolic_sets(repo, ev):
 
 def run(repo, rep):
     alg.reset()
+    common.state_rule(repo, rep, [('geodepy.transform', 'conform7')])
     rep.trust('sv/alg.py exact normal forms and exact differentiation')
     rep.trust('frozen summary: hp2dec(q/10000) == q/3600 degrees for |q| < 60 arc-seconds (string-based HP conversion, the property\'s domain)')
     rep.trust('reference: GDA2020 technical manual section 3 (similarity transformation, Australian rotation sign convention)')
